@@ -117,6 +117,9 @@ func c04Preds() []c04Pred {
 		{"array-top", []byte(`[{"type":"Feature"},[1,2],{"log":{"version":1}}]`), 3072, false},
 		{"csv-mid-record", []byte("a,b,c\n1,2,3\n\"unterminated,4"), 3072, false},
 		{"csv-big", bytes.Repeat([]byte("aaaa,bbbb,cccc\n"), 2000), 0, false},
+		{"csv-ragged-early-with-tail", []byte("a,b\n1,2,3\nmore,data\nx,y\n" + strings.Repeat("p,q\n", 50)), 3072, false},
+		{"tsv-ragged-early-with-tail", []byte("a\tb\n1\t2\t3\nmore\tdata\n" + strings.Repeat("p\tq\n", 50)), 3072, false},
+		{"csv-bad-quote-early", []byte("a,b\n\"x\"y,2\nleft,over\n" + strings.Repeat("1,2\n", 900)), 0, false},
 		{"csv-cut", bytes.Repeat([]byte("aaaa,bbbb,cccc\n"), 2000), 100, false},
 		{"tsv", []byte("a\tb\n1\t2\n"), 3072, false},
 		{"ndjson", []byte("{\"a\":1}\n{\"b\":2}\n"), 3072, false},
@@ -131,6 +134,8 @@ func c04Preds() []c04Pred {
 		{"plain", []byte("hello world"), 3072, false},
 	}
 }
+
+var seedsC04 [][]byte
 
 func c04RunPred(p c04Pred) {
 	mimetype.SetLimit(p.Limit)
@@ -232,6 +237,7 @@ func c04Run(c *fw.Ctx, b fw.Batch) {
 		c04CheckProbe(c, "fresh-process", nil, p, false)
 		c.Count("fresh_process_probes", 1)
 	case "histories":
+		seedsC04 = lib.Seeds()
 		runtime.GOMAXPROCS(1)
 		debug.SetGCPercent(-1)
 		if b.Idx == 0 {
@@ -258,6 +264,10 @@ func c04Run(c *fw.Ctx, b fw.Batch) {
 				p := preds[r.Intn(len(preds))]
 				if p.Name == "huge-json" && r.Intn(4) != 0 {
 					p = preds[0]
+				}
+				if r.Intn(5) == 0 { // any corpus seed, cut at a random limit, as predecessor
+					sd := seedsC04[r.Intn(len(seedsC04))]
+					p = c04Pred{Name: fmt.Sprintf("seed#%d", r.Intn(1<<30)), In: sd, Limit: uint32(r.Intn(len(sd) + 2))}
 				}
 				h = append(h, p.Name)
 				cp := append([]byte(nil), p.In...)
@@ -463,7 +473,7 @@ func init() {
 	fw.Register(&fw.Prop{
 		ID:    "C04",
 		Level: "exploration",
-		Rule: "probes (39 fixed + generated JSON objects / tables / NDJSON, each with an expectation decided by construction: JSON sub-type family, cut JSON, CSV/TSV/NDJSON, blank-line texts, texts of every charset class, HTML/XML with upper-case declarations, binaries) are detected (a) as the first and only detection of a fresh process (one process per probe) and (b) after histories of 1-6 predecessor detections drawn from 29 kinds (satisfied / unsatisfied sub-type queries, parses aborted in a key / after a colon / in a string / in an escape / on a bad token, cut at the limit, nesting bombs with path stacks > 128, deep objects, CSV readers left mid-record, 1 MiB inputs, a failing reader, empty, binary) with GOMAXPROCS=1 and GC off; EVERY ordered pair of predecessor kinds x every fixed probe is run; the pooled parser state seen just before each probe is recorded through the pool-peek hook. Every seed / probe / predecessor input is also detected from read-only pages (a write faults), three times (twice directly, once through a reader), and with 5 different tails / spare-capacity contents beyond the limit. The history workload is repeated on 12 goroutines under the race detector; in further rounds a goroutine keeps switching the limit between two values under which a long JSON / CSV / NDJSON input has the same sequential answer while 6 goroutines detect it (the answer must be that one). " +
+		Rule: "probes (39 fixed + generated JSON objects / tables / NDJSON, each with an expectation decided by construction: JSON sub-type family, cut JSON, CSV/TSV/NDJSON, blank-line texts, texts of every charset class, HTML/XML with upper-case declarations, binaries) are detected (a) as the first and only detection of a fresh process (one process per probe) and (b) after histories of 1-6 predecessor detections drawn from 32 kinds (satisfied / unsatisfied sub-type queries, parses aborted in a key / after a colon / in a string / in an escape / on a bad token, cut at the limit, nesting bombs with path stacks > 128, deep objects, CSV readers left mid-record, 1 MiB inputs, a failing reader, empty, binary) with GOMAXPROCS=1 and GC off; EVERY ordered pair of predecessor kinds x every fixed probe is run; the pooled parser state seen just before each probe is recorded through the pool-peek hook. Every seed / probe / predecessor input is also detected from read-only pages (a write faults), three times (twice directly, once through a reader), and with 5 different tails / spare-capacity contents beyond the limit. The history workload is repeated on 12 goroutines under the race detector; in further rounds a goroutine keeps switching the limit between two values under which a long JSON / CSV / NDJSON input has the same sequential answer while 6 goroutines detect it (the answer must be that one). " +
 			"non-trivial = the pooled parser state observed before the probe was dirty (non-zero inspected bytes / path / token / satisfied flag); distinct = distinct (history, probe, pool state) tuples and (tail kind, result) pairs.",
 		Assumptions: []string{
 			"sync.Pool may drop objects: reuse is observed (pool-peek evidence), not forced; under -race pools drop at random",
